@@ -10,10 +10,15 @@
      - references: an unknown, covered reference inside an applied binding is kept as the placeholder
        'Unk' (never dropped, never resolved to something else); a known one resolves to its configurable;
        an uncovered unknown one is a ValueError.
+     - imports may REGISTER configurables (e_mod_regs): the registry is consulted at each statement, so the
+       deletion tracks the registry through the successful imports (reduce / C15_reduce_equiv_dynamic); a
+       binding after the import that makes its target known is applied whatever skip_unknown says, the same
+       binding before it is dropped iff covered.  The static form (covered read off the start state) is the
+       special case of imports without side effects (pure_imports).
    The behaviour of a placeholder when USED (call time / finalize) is the gin machine's: see C11/C12 and
    the independent predicates of harness/props/c15.py. *)
 From Coq Require Import List String ZArith Bool Arith.
-From GinV Require Import Lib.Out Lib.PyStr Model.SelectorMap Model.Parser Model.Stmt Model.StmtSpec Model.StmtEngine Proofs.StmtProofs Proofs.StmtProofs2 Proofs.StmtProofs3.
+From GinV Require Import Lib.Out Lib.PyStr Model.SelectorMap Model.Parser Model.Stmt Model.StmtSpec Model.StmtEngine Proofs.StmtProofs Proofs.StmtProofs2 Proofs.StmtProofs3 Proofs.StmtProofs4.
 Import ListNotations.
 Open Scope string_scope.
 Open Scope list_scope.
@@ -27,14 +32,17 @@ Proof. exact StmtProofs2.C15_skip_list. Qed.
 Theorem C15_skip_true : forall s sel, sm_matching (to_key sel) (t_reg s) = [] -> should_skip s sel SkTrue = true.
 Proof. exact StmtProofs2.C15_skip_true. Qed.
 
-(* exactly deletion (include-free statement lists; includes are handled by C14) *)
+(* exactly deletion (include-free statement lists; includes are handled by C14); imports without side effects:
+   the covered statements can be read off the start state.  The general case follows below (C15_reduce_equiv_dynamic) *)
 Theorem C15_reduce_equiv : forall env sk fname inc stmts s im ic,
+  pure_imports env ->
   forallb (fun st => negb (is_include st)) stmts = true ->
   apply_stmts env sk fname inc stmts s im ic =
   apply_stmts env sk fname inc (filter (fun st => negb (covered_env env s sk st)) stmts) s im ic.
 Proof. exact StmtProofs2.C15_reduce_equiv_imports. Qed.
 
 Theorem C15_reduce_equiv_skfalse : forall env sk fname inc stmts s im ic,
+  pure_imports env ->
   forallb (fun st => negb (is_include st)) stmts = true ->
   forallb (targets_known env s) (filter (fun st => negb (covered_env env s sk st)) stmts) = true ->
   apply_stmts env sk fname inc stmts s im ic =
@@ -42,6 +50,7 @@ Theorem C15_reduce_equiv_skfalse : forall env sk fname inc stmts s im ic,
 Proof. exact StmtProofs2.C15_reduce_equiv_skfalse. Qed.
 
 Theorem C15_known_targets_skip_irrelevant : forall env sk fname inc stmts s im ic,
+  pure_imports env ->
   forallb (fun st => negb (is_include st)) stmts = true -> forallb (targets_known env s) stmts = true ->
   apply_stmts env sk fname inc stmts s im ic = apply_stmts env SkFalse fname inc stmts s im ic.
 Proof. exact StmtProofs2.C15_known_targets_skip_irrelevant. Qed.
@@ -59,6 +68,7 @@ Proof. exact StmtProofs2.C15_uncovered_unknown_block_errors. Qed.
 (* whole-file form: the first uncovered unknown target stops the parse with a located ValueError, and the state is
    exactly the one after the earlier groups and the earlier statements of the same group *)
 Theorem C15_first_unknown_is_ValueError : forall env fname gf s ts gs1 g gs3 pe pre sc sel arg v line post s0 im0 ic0 s1 im1 ic1,
+  pure_imports env ->
   settle (f_tokens gf) = POk ts ->
   parse_groups 60 (f_oracle gf) false ts = (gs1 ++ g :: gs3, pe) -> no_includes (gs1 ++ g :: gs3) ->
   consume env SkFalse fname no_inc gs1 s [] [] = (s0, SOk (im0, ic0)) ->
@@ -81,6 +91,59 @@ Theorem C15_unknown_reference_errors : forall s sk scoped ev,
   make_reference s sk scoped ev = SErr (SEOther "ValueError" []).
 Proof. exact StmtProofs2.C15_unknown_reference_errors. Qed.
 
+(* ---- imports that register configurables: the registry is consulted at each statement ---- *)
+(* exactly deletion, the registry tracked through the successful imports (no hypothesis on the list: nothing after an
+   include is touched) *)
+Theorem C15_reduce_equiv_dynamic : forall env sk fname inc stmts s im ic,
+  apply_stmts env sk fname inc stmts s im ic = apply_stmts env sk fname inc (reduce env sk s stmts) s im ic.
+Proof. exact StmtProofs4.C15_reduce_equiv_dynamic. Qed.
+Theorem C15_reduce_is_static_when_pure : forall env sk s stmts, pure_imports env ->
+  forallb (fun st => negb (is_include st)) stmts = true ->
+  reduce env sk s stmts = filter (fun st => negb (covered_env env s sk st)) stmts.
+Proof. exact StmtProofs4.reduce_pure. Qed.
+Theorem C15_reduce_equiv_dynamic_skfalse : forall env sk fname inc stmts s im ic,
+  targets_known_dyn env s (reduce env sk s stmts) = true ->
+  apply_stmts env sk fname inc stmts s im ic = apply_stmts env SkFalse fname inc (reduce env sk s stmts) s im ic.
+Proof. exact StmtProofs4.C15_reduce_equiv_dynamic_skfalse. Qed.
+(* a name the import makes known: a binding after the import is applied whatever skip_unknown says ... *)
+Theorem C15_known_after_import : forall env sk fname inc m isf al l1 sc sel arg v line rest s s1 im ic,
+  str_in m (e_modules env) = true -> register_mod env m s = SOk s1 ->
+  sm_matching (to_key sel) (t_reg s1) <> [] -> arg <> "" ->
+  apply_stmts env sk fname inc (SImport m isf al l1 :: SBind sc sel arg v line :: rest) s im ic =
+  match bind s1 sc sel arg v (fname, line) with
+  | SErr e => (s1, with_loc (fname, line) (SErr e))
+  | SOk s2 => apply_stmts env sk fname inc rest s2 (im ++ [m]) ic
+  end.
+Proof. exact StmtProofs4.C15_known_after_import. Qed.
+Theorem C15_import_registers : forall env m s s1 c,
+  register_mod env m s = SOk s1 -> In c (mod_regs env m) ->
+  sm_matching (to_key (cs_sel c)) (t_reg s1) = [to_key (cs_sel c)].
+Proof. exact StmtProofs4.register_mod_registers. Qed.
+(* ... while the same binding before the import is dropped iff covered, and is an error otherwise *)
+Theorem C15_unknown_before_import : forall env sk fname inc m isf al l1 sc sel arg v line rest s im ic,
+  sm_matching (to_key sel) (t_reg s) = [] -> arg <> "" ->
+  let cov := match sk with SkList l => str_in sel l | SkTrue => true | SkFalse => false end in
+  should_skip s sel sk = cov /\
+  (cov = true ->
+     apply_stmts env sk fname inc (SBind sc sel arg v line :: SImport m isf al l1 :: rest) s im ic =
+     apply_stmts env sk fname inc (SImport m isf al l1 :: rest) s im ic) /\
+  (cov = false ->
+     exists e, apply_stmts env sk fname inc (SBind sc sel arg v line :: SImport m isf al l1 :: rest) s im ic = (s, SErr e)).
+Proof. exact StmtProofs4.C15_unknown_before_import. Qed.
+(* whole-file form, "unknown" judged where the statement is reached *)
+Theorem C15_first_unknown_is_ValueError_at_point : forall env fname gf s ts gs1 g gs3 pe pre sc sel arg v line post s0 im0 ic0 s1 im1 ic1,
+  settle (f_tokens gf) = POk ts ->
+  parse_groups 60 (f_oracle gf) false ts = (gs1 ++ g :: gs3, pe) -> no_includes (gs1 ++ g :: gs3) ->
+  consume env SkFalse fname no_inc gs1 s [] [] = (s0, SOk (im0, ic0)) ->
+  resolve_group s0 SkFalse fname g = SOk (pre ++ SBind sc sel arg v line :: post) ->
+  apply_stmts env SkFalse fname no_inc pre s0 im0 ic0 = (s1, SOk (im1, ic1)) ->
+  arg <> "" -> sm_matching (to_key sel) (t_reg s1) = [] -> t_locked s = false ->
+  parse_config env SkFalse fname gf s = (s1, SErr (SEOther "ValueError" [(fname, line)])).
+Proof. exact StmtProofs3.C15_first_unknown_is_ValueError_at_point. Qed.
+(* lfn.a = 1 / import plug / lfn.b = 2 with skip_unknown=['lfn'], plug registering late.lfn: first dropped, second applied *)
+Theorem C15_dynamic_nonvacuous : True.
+Proof. pose proof StmtProofs4.C15DynExample.reduced. pose proof StmtProofs4.C15DynExample.run_list. exact I. Qed.
+
 Print Assumptions C15_known_never_skipped.
 Print Assumptions C15_skip_false.
 Print Assumptions C15_skip_list.
@@ -94,3 +157,11 @@ Print Assumptions C15_placeholder_kept.
 Print Assumptions C15_known_reference_resolved.
 Print Assumptions C15_unknown_reference_errors.
 Print Assumptions C15_first_unknown_is_ValueError.
+Print Assumptions C15_reduce_equiv_dynamic.
+Print Assumptions C15_reduce_is_static_when_pure.
+Print Assumptions C15_reduce_equiv_dynamic_skfalse.
+Print Assumptions C15_known_after_import.
+Print Assumptions C15_import_registers.
+Print Assumptions C15_unknown_before_import.
+Print Assumptions C15_first_unknown_is_ValueError_at_point.
+Print Assumptions C15_dynamic_nonvacuous.
